@@ -344,7 +344,9 @@ class NewColumnWiringSpec(KernelSpec):
         ex.stubs = [(_re.compile(r"(?:^|::)Table::new_column_names(?:::<.*>)?$"), stop)]
         ex.havoc_unknown_calls = True
         ex.prune_unreachable = True
-        ex.inline_in_slices = lambda f: bool(_re.search(r"TableBuffer::columns$|event_buffer::<impl[^>]*>::columns$|\{closure", f.name))
+        # everything the argument expression can call inside locustdb-serialization's event_buffer module is executed for real
+        # (a havoc'd callee inside an iterator adaptor would be re-drawn on every re-execution after a fork)
+        ex.inline_in_slices = lambda f: bool(_re.search(r"event_buffer::|\{closure", f.name))
         st = ex.start_at(fn, blk.name if hasattr(blk, "name") else blk, {dbg["table_buffer"]: Ref(Cell(tb))}, {}, pc=pre)
         outs = ex.explore(st)
         if not any(o.kind == "stop" for o in outs):
